@@ -489,30 +489,39 @@ package protocol
 //@ func ResponseHeader.SetContentTypeBytes(h, contentType)
 //@   modifies h._all, membut(parseArr)
 //@   allocates
+//@   ensures h.disableNormalizing == old(h.disableNormalizing)
 //@ func ResponseHeader.SetServerBytes(h, server)
 //@   modifies h._all, membut(parseArr)
 //@   allocates
+//@   ensures h.disableNormalizing == old(h.disableNormalizing)
 //@ func ResponseHeader.SetContentLengthBytes(h, contentLength)
 //@   modifies h._all, membut(parseArr)
 //@   allocates
+//@   ensures h.disableNormalizing == old(h.disableNormalizing)
 //@ func ResponseHeader.SetContentEncodingBytes(h, contentEncoding)
 //@   modifies h._all, membut(parseArr)
 //@   allocates
+//@   ensures h.disableNormalizing == old(h.disableNormalizing)
 //@ func ResponseHeader.AddArgBytes(h, key, value, noValue)
 //@   modifies h._all, alltype(protocol.argsKV), membut(parseArr)
 //@   allocates
+//@   ensures h.disableNormalizing == old(h.disableNormalizing)
 //@ func ResponseHeader.SetArgBytes(h, key, value, noValue)
 //@   modifies h._all, alltype(protocol.argsKV), membut(parseArr)
 //@   allocates
+//@   ensures h.disableNormalizing == old(h.disableNormalizing)
 //@ func ResponseHeader.PeekArgBytes(h, key) r
 //@ func ResponseHeader.Peek(h, key) r
 //@   modifies h._all, membut(parseArr)
 //@   allocates
+//@   ensures h.disableNormalizing == old(h.disableNormalizing)
 //@ func ResponseHeader.ParseSetCookie(h, value)
 //@   modifies h._all, alltype(protocol.argsKV), membut(parseArr)
 //@   allocates
+//@   ensures h.disableNormalizing == old(h.disableNormalizing)
 //@ func ResponseHeader.SetProtocol(h, p)
 //@   modifies h._all
+//@   ensures h.disableNormalizing == old(h.disableNormalizing)
 
 // URI.parse: panic-free for every host/uri; the path buffer and the original-path buffer stay separate arrays
 // (normalizePath's precondition), which parse itself preserves.
@@ -578,3 +587,13 @@ package protocol
 //@   loop 0:
 //@     invariant 0 <= i && i <= n && n == len(h)
 //@     invariant forall(k, 0, len(h), h[k].noValue == old(h[k].noValue) && sameSlice(h[k].value, old(h[k].value)))
+
+// C11 (configuration survives a read): clearing a response header for the next message keeps the switch that
+// turns header-name normalisation off.
+//@ func ResponseHeader.ResetSkipNormalize(h)
+//@   props C11
+//@   requires h != nil
+//@   modifies h._all, alltype(protocol.Trailer)
+//@   allocates
+//@   top-ensures h.disableNormalizing == old(h.disableNormalizing)
+
